@@ -6,7 +6,7 @@ kf = json.load(open(p))
 e = json.loads(sys.stdin.read())
 es = e if isinstance(e, list) else [e]
 for x in es:
-    kf['findings'] = [f for f in kf['findings'] if not (f['property'] == x['property'] and f['signature'] == x['signature'])]
+    kf['findings'] = [f for f in kf['findings'] if not (f['property'] == x['property'] and f['signature'] == x['signature'] and f.get('root_cause') == x.get('root_cause'))]
     kf['findings'].append(x)
 json.dump(kf, open(p, 'w'), indent=1)
 print(len(kf['findings']), 'entries')
